@@ -3,7 +3,7 @@
    precondition (the harness then judges against the model only), [s] otherwise; or a top-level
    error value when the model returns an error. *)
 From Coq Require Import ZArith List Bool.
-From EV Require Import Res Arr Val Spans SpansSpec.
+From EV Require Import Res Arr Val Spans SpansSpec SpansRle.
 Import ListNotations.
 Open Scope Z_scope.
 
@@ -115,8 +115,85 @@ Definition apply_indexed (kid level:Z) (sp:list Z) (i v:list Z) : res val * opti
   | _ => (Raise E_Other, None)
   end.
 
+(* run-length encoded column: [0, [values], [run lengths]] numeric | [1, [[bytes]…], [run lengths]] byte strings
+   (fixed-width elements NUL padded; rows of an indexed string field as they are) *)
+Inductive rcol : Type := RNum (r:list (Z * Z)) | RBytes (r:list (list Z * Z)).
+Definition as_rcol (v:val) : option rcol :=
+  match v with
+  | VL [VZ 0; vs; ns] =>
+      match as_list vs, as_list ns with
+      | Some vs, Some ns => if len vs =? len ns then Some (RNum (combine vs ns)) else None
+      | _, _ => None
+      end
+  | VL [VZ 1; vs; ns] =>
+      match as_list2 vs, as_list ns with
+      | Some vs, Some ns => if len vs =? len ns then Some (RBytes (combine vs ns)) else None
+      | _, _ => None
+      end
+  | _ => None
+  end.
+Definition rcol_len (c:rcol) : Z := match c with RNum r => rle_len r | RBytes r => rle_len r end.
+Definition rcol_spans (c:rcol) : list Z :=
+  match c with RNum r => spans_of_rle Z_neqb r | RBytes r => spans_of_rle bytes_neqb r end.
+Definition rcol_spans_2 (c0 c1:rcol) : res (list Z) :=
+  match c0, c1 with
+  | RNum a, RNum b => spans_of_rle_2 Z_neqb Z_neqb a b
+  | RNum a, RBytes b => spans_of_rle_2 Z_neqb bytes_neqb a b
+  | RBytes a, RNum b => spans_of_rle_2 bytes_neqb Z_neqb a b
+  | RBytes a, RBytes b => spans_of_rle_2 bytes_neqb bytes_neqb a b
+  end.
+
+(* reductions of a run-length encoded column on VALID spans (anything else is a harness bug): kid as for op 10;
+   level 1 (Session) additionally needs spans[-1] = row count *)
+Definition apply_rle (kid level:Z) (sp:list Z) (c:rcol) : val :=
+  let ok := valid_spansb (rcol_len c) sp && (if level =? 1 then nthZ sp (len sp - 1) =? rcol_len c else true) in
+  if negb ok then vbad else
+  let out (x:val) := answer (Ok x) (Some x) in
+  match c with
+  | RNum r =>
+      match kid with
+      | 0 => out (vlist (rle_index_of_min_ref Z.ltb sp r))
+      | 1 => out (vlist (rle_index_of_max_ref Z.ltb sp r))
+      | 5 => out (vlist (rle_min_ref Z.ltb 0 sp r))
+      | 6 => out (vlist (rle_max_ref Z.ltb 0 sp r))
+      | 7 => out (vlist (rle_first_ref 0 sp r))
+      | 8 => out (vlist (rle_last_ref 0 sp r))
+      | _ => vbad
+      end
+  | RBytes r =>
+      match kid with
+      | 0 => out (vlist (rle_index_of_min_ref bytes_ltb sp r))
+      | 1 => out (vlist (rle_index_of_max_ref bytes_ltb sp r))
+      | 5 => out (vlist2 (rle_min_ref bytes_ltb [] sp r))
+      | 6 => out (vlist2 (rle_max_ref bytes_ltb [] sp r))
+      | 7 => out (vlist2 (rle_first_ref [] sp r))
+      | 8 => out (vlist2 (rle_last_ref [] sp r))
+      | _ => vbad
+      end
+  end.
+
 Definition entry_C08 (v:val) : val :=
   match v with
+  | VL [VZ 22; VZ kid; VZ level; sp; c] =>
+      match as_list sp, as_rcol c with
+      | Some sp, Some c => apply_rle kid level sp c
+      | _, _ => vbad
+      end
+  (* get_spans on a run-length encoded column (theorems spans_rle_*: = the models on the expanded column = THE spans) *)
+  | VL [VZ 20; c] =>
+      match as_rcol c with
+      | Some c => let sp := vlist (rcol_spans c) in answer (Ok sp) (Some sp)
+      | None => vbad
+      end
+  (* Session.get_spans(fields=(c0, c1)), Fields or ndarrays, on two run-length encoded columns *)
+  | VL [VZ 21; c0; c1] =>
+      match as_rcol c0, as_rcol c1 with
+      | Some c0, Some c1 =>
+          let m := rcol_spans_2 c0 c1 in
+          answer (rmap vlist m)
+                 (if rcol_len c0 =? rcol_len c1 then match m with Ok sp => Some (vlist sp) | _ => None end else None)
+      | _, _ => vbad
+      end
   (* Field.get_spans / Session.get_spans(field) / ops.get_spans_for_field *)
   | VL [VZ 1; c] =>
       match as_column c with
